@@ -145,6 +145,18 @@ func c05Container(produces []string) *restful.Container {
 	ws.Route(ws.GET("/x").Produces(produces...).To(func(req *restful.Request, resp *restful.Response) {
 		resp.WriteEntity(c05Ent{"v"})
 	}))
+	// the same entity written onto a response that already carries a Content-Type: set by the
+	// handler itself (/y), added by a filter in front of it (/z)
+	ws.Route(ws.GET("/y").Produces(produces...).To(func(req *restful.Request, resp *restful.Response) {
+		resp.Header().Set("Content-Type", "text/plain")
+		resp.WriteEntity(c05Ent{"v"})
+	}))
+	ws.Route(ws.GET("/z").Produces(produces...).Filter(func(req *restful.Request, resp *restful.Response, chain *restful.FilterChain) {
+		resp.AddHeader("Content-Type", "text/plain; charset=utf-8")
+		chain.ProcessFilter(req, resp)
+	}).To(func(req *restful.Request, resp *restful.Response) {
+		resp.WriteEntity(c05Ent{"v"})
+	}))
 	c.Add(ws)
 	c05Containers[k] = c
 	return c
@@ -170,13 +182,43 @@ func c05Do(produces []string, accept string, order []string) c05Out {
 		}
 		return out
 	})
-	q := h.Req{Method: "GET", Segs: []string{"e", "x"}}
+	q := h.Req{Method: "GET", Segs: []string{"e", c05Variant}}
 	if accept != "" {
-		q.Hdr = [][2]string{{"Accept", accept}}
+		// a newline separates several Accept header lines
+		for _, line := range strings.Split(accept, "\n") {
+			q.Hdr = append(q.Hdr, [2]string{"Accept", line})
+		}
 	}
 	rec := h.NewRec()
 	c05Container(produces).Dispatch(rec, q.HTTP())
-	return c05Out{rec.Code, rec.Result().Get("Content-Type"), rec.Buf.String()}
+	return c05Out{rec.Code, strings.Join(rec.Result().Values("Content-Type"), " | "), rec.Buf.String()}
+}
+
+// c05Variant selects the route: x (plain), y / z (a Content-Type is already present when the
+// entity is written).
+var c05Variant = "x"
+
+// judgeMultiLine: several Accept header lines. Whether only the first line counts or all lines
+// joined is not decided by the property; the answer must be the one the statement demands under
+// one of the two readings (router and entity writer agreeing on it).
+func judgeMultiLine(produces []string, accept string, registered map[string]bool) string {
+	o := c05Do(produces, accept, nil)
+	lines := strings.Split(accept, "\n")
+	var wants []string
+	for _, reading := range []string{lines[0], strings.Join(lines, ",")} {
+		want, admitted := refChoice(produces, reading, registered)
+		switch {
+		case !admitted && o.Status == 406:
+			return ""
+		case admitted && o.Status == 200 && o.CT == want && decodes(o.CT, o.Body):
+			return ""
+		case admitted:
+			wants = append(wants, "200 "+want)
+		default:
+			wants = append(wants, "406")
+		}
+	}
+	return fmt.Sprintf("answered %s; the first line alone demands %s, all lines joined demand %s", o.key(), wants[0], wants[1])
 }
 
 func permsOf(keys []string) [][]string {
@@ -398,6 +440,18 @@ func c05Worker(args []string) {
 					}
 					res.Issues = append(res.Issues, c05Issue{"negotiation", fnd, fmt.Sprintf("Produces %v Accept %q default=%q vnd=%v : %s", produces, accept, def, vnd, why), cs})
 				}
+				if si == 0 && why == "" && !strings.HasPrefix(key, "refused/") {
+					// the same entity on a response that already carries a Content-Type
+					for _, v := range []string{"y", "z"} {
+						c05Variant = v
+						o := c05Do(produces, accept, nil)
+						c05Variant = "x"
+						res.Dispatches++
+						if o.key() != key && len(res.Issues) < 60 {
+							res.Issues = append(res.Issues, c05Issue{"preset-content-type", "", fmt.Sprintf("Produces %v Accept %q default=%q vnd=%v : answered %s; when a Content-Type is already present on the response (route /e/%s) the answer is %s", produces, accept, def, vnd, key, v, o.key()), cs})
+						}
+					}
+				}
 				if si == 0 {
 					canonical = key
 				} else if key != canonical && len(res.Issues) < 40 {
@@ -423,6 +477,24 @@ func c05Worker(args []string) {
 			}
 		}
 	}
+	// several Accept header lines
+	lineAlphabet := []string{"application/bogus", restful.MIME_JSON, restful.MIME_XML, "*/*;q=0.1", "text/plain", restful.MIME_XML + ";q=0.5"}
+	for _, produces := range c05ProducesLists(vnd) {
+		for _, l1 := range lineAlphabet {
+			for _, l2 := range lineAlphabet {
+				if l1 == l2 {
+					continue
+				}
+				accept := l1 + "\n" + l2
+				res.Cases++
+				res.Abstract++
+				res.Dispatches++
+				if why := judgeMultiLine(produces, accept, registered); why != "" && len(res.Issues) < 60 {
+					res.Issues = append(res.Issues, c05Issue{"accept-lines", "", fmt.Sprintf("Produces %v Accept lines %q default=%q vnd=%v : %s", produces, strings.Split(accept, "\n"), def, vnd, why), c05Case{produces, accept, def, vnd, nil}})
+				}
+			}
+		}
+	}
 	data, _ := json.Marshal(res)
 	os.Stdout.Write(data)
 }
@@ -442,7 +514,28 @@ func replayC05(detail json.RawMessage) error {
 		keys = append(keys, mimeVnd)
 	}
 	sort.Strings(keys)
+	if strings.Contains(cs.Accept, "\n") {
+		if why := judgeMultiLine(cs.Produces, cs.Accept, registered); why != "" {
+			return fmt.Errorf("%s", why)
+		}
+		return nil
+	}
+	for _, v := range []string{"y", "z"} {
+		c05Variant = v
+		fmt.Printf("route /e/%s (Content-Type already present): %s\n", v, c05Do(cs.Produces, cs.Accept, nil).key())
+		c05Variant = "x"
+	}
 	why, key := judgeC05(cs.Produces, cs.Accept, registered, keys)
+	if why == "" && !strings.HasPrefix(key, "refused/") {
+		for _, v := range []string{"y", "z"} {
+			c05Variant = v
+			o := c05Do(cs.Produces, cs.Accept, nil)
+			c05Variant = "x"
+			if o.key() != key {
+				return fmt.Errorf("answered %s, but %s when a Content-Type is already present (route /e/%s)", key, o.key(), v)
+			}
+		}
+	}
 	want, ok := refChoice(cs.Produces, cs.Accept, registered)
 	fmt.Printf("Produces %v Accept %q -> %s ; reference: %q (admitted=%v)\n", cs.Produces, cs.Accept, key, want, ok)
 	if why != "" {
